@@ -152,7 +152,122 @@ def check_filter_loop(ctx, out, fp, rule):
     return True
 
 
+def check_filter_model(ctx, out, fp, rule):
+    """The per-block selection on a small model (engine.casewalk + engine.listmodel): the file parser's
+    normalised body is walked with the parsed blocks = [B1, B2], for both filter modes and every
+    combination of (content touched, start tag touched) per block (32 cases). Expected: the returned
+    FileBlocks holds exactly the blocks with `All or content touched or tag touched`, in order, each
+    with the two flags it was tested with; every intersection test is asked with the file's complete
+    change list (the selection of one block cannot depend on the blocks before it).
+    True/False if decided, None if the model could not follow the code."""
+    from engine import casewalk as CW
+    from engine import listmodel as LM
+    v = ctx.inl(fp, skip=ctx.domain_api, tag="domain", sugar=True)
+    enum = ctx.facts.adts.get("blockwatch::blocks::BlocksFilter")
+    if enum is None:
+        return None
+    pf = [i for i in range(1, v.argc + 1) if v.local_ty(i) == "blockwatch::blocks::BlocksFilter"]
+    pc = [i for i in range(1, v.argc + 1) if re.match(r"^&\[blockwatch::diff_parser::LineChange\]$|^&std::vec::Vec<blockwatch::diff_parser::LineChange>$", v.local_ty(i))]
+    if len(pf) != 1 or len(pc) != 1:
+        return None
+    std = CW.std_hooks()
+    lm = LM.hooks()
+    n = 0
+    total = 0
+    for var in enum["variants"]:
+        for case in itertools.product((False, True), repeat=4):
+            total += 1
+            flags = {"B1": (case[0], case[1]), "B2": (case[2], case[3])}     # (content, tag)
+            problems = []
+            results = []
+
+            def hook(w, bb, t, argv, env):
+                nm = callee_name(t)
+                a0 = w.deref_val(env, argv[0]) if argv else CW.TOP
+                if re.search(r"block_parser::BlocksParser::parse$", nm):
+                    return CW.adt("std::result::Result", "Ok", 0, [("0", LM.lst([CW.sym("B1"), CW.sym("B2")]))])
+                if re.search(r"FileSystem::read_to_string$", nm):
+                    return CW.adt("std::result::Result", "Ok", 0, [("0", CW.sym("TEXT"))])
+                m = re.search(r"blocks::Block::(content|start_tag)_intersects_with_any$", nm)
+                if m and a0[0] == "sym" and a0[1] in flags:
+                    ch = w.deref_val(env, argv[1]) if len(argv) > 1 else CW.TOP
+                    if ch != CW.sym("CHANGES"):
+                        problems.append("%s is tested against %s instead of the file's complete change list" % (a0[1], "a value derived inside the loop" if ch == CW.TOP else str(ch)))
+                    return CW.const(1 if flags[a0[1]][0 if m.group(1) == "content" else 1] else 0)
+                if re.search(r"anyhow::Context.*::(context|with_context)$|anyhow::context::<impl anyhow::Context", nm) and a0[0] == "adt":
+                    return a0 if a0[2] == "Ok" else None
+                r = lm(w, bb, t, argv, env)
+                if r is not None:
+                    return r
+                return std(w, bb, t, argv, env)
+            w = CW.Walk(ctx, v, [hook], max_states=40000)
+
+            def on_visit(bb, env):
+                tm = v.blocks[bb]["term"]
+                if tm and tm["k"] == "return":
+                    r0 = env.get(0, CW.TOP)
+                    if r0[0] == "adt" and r0[2] == "Ok":
+                        o = w.field(r0, "0")
+                        if o[0] == "adt" and o[2] == "Some":
+                            fb = w.field(o, "0")
+                            results.append(w.field(fb, "blocks_with_context") if fb[0] == "adt" else CW.TOP)
+                        elif o[0] == "adt" and o[2] == "None":
+                            results.append(("none",))
+                        else:
+                            results.append(CW.TOP)
+            w.on_visit = on_visit
+            env = {pf[0]: ("adt", "blockwatch::blocks::BlocksFilter", var["name"], var["vi"], ()), pc[0]: CW.sym("CHANGES")}
+            try:
+                w.explore(0, env)
+            except CW.Limit:
+                return None
+            lists = [r for r in results if r != ("none",)]
+            if not lists or any(r[0] != "list" for r in lists):
+                return None
+            want = [(b, flags[b][1], flags[b][0]) for b in ("B1", "B2") if var["name"] == "All" or flags[b][0] or flags[b][1]]
+            desc = "filter=%s, B1(content=%s, tag=%s), B2(content=%s, tag=%s)" % ((var["name"],) + tuple(case))
+            bad = None
+            for r in lists:
+                got = []
+                for x in r[1]:
+                    if x[0] != "adt":
+                        return None
+                    fl = dict(x[4])
+                    blk = fl.get("block", CW.TOP)
+                    tg = fl.get("_is_start_tag_modified", fl.get("is_start_tag_modified", CW.TOP))
+                    cn = fl.get("is_content_modified", CW.TOP)
+                    if blk[0] != "sym" or not CW.is_const(tg) or not CW.is_const(cn):
+                        return None
+                    got.append((blk[1], bool(tg[1]), bool(cn[1])))
+                if got != want:
+                    bad = got
+            key = "%s|%s" % (var["name"], "".join("1" if x else "0" for x in case))
+            if problems:
+                out.viol(rule, "%s|stateful|%s" % (rule, key), ctx.where(fp), "%s: %s - whether a block is selected then depends on the blocks visited before it" % (desc, problems[0]))
+            elif bad is not None:
+                out.viol(rule, "%s|row|%s" % (rule, key), ctx.where(fp),
+                         "%s: the file's selected blocks are %s; expected %s as (block, start tag touched, content touched): a block is kept iff the filter is All or one of the two tests holds, with the flags it was tested with"
+                         % (desc, bad, want))
+            else:
+                n += 1
+    out.inst(rule, n, total, ["blocks [B1, B2] x filter x (content, tag) per block: %d cases" % total], exhaustive=True)
+    return n == total
+
+
 def check_filter(ctx, out, fp, rule="C02.filter"):
+    tr = out.trial()
+    try:
+        decided = check_filter_model(ctx, tr, fp, rule)
+    except Exception as e:      # noqa: BLE001
+        ctx.view_fallbacks.append("%s: small-model analysis failed (%s: %s)" % (rule, type(e).__name__, e))
+        decided = None
+    if decided is not None:
+        out.adopt(tr)
+        return
+    _check_filter_structural(ctx, out, fp, rule)
+
+
+def _check_filter_structural(ctx, out, fp, rule="C02.filter"):
     if check_filter_loop(ctx, out, fp, rule):
         return
     n = 0
@@ -381,8 +496,24 @@ def parser_call_sites(ctx, fp):
     for b in ctx.reachable_bodies():
         if any((t.get("res") or "") == fp.id for bi, t in b.calls()):
             top = b
-            while top.kind == "Closure" and top.parent and ctx.facts.body(top.parent) is not None:
-                top = ctx.facts.body(top.parent)
+            for _ in range(6):
+                while top.kind == "Closure" and top.parent and ctx.facts.body(top.parent) is not None:
+                    top = ctx.facts.body(top.parent)
+                # a helper (a method of a collector struct, a thin wrapper) that is itself only called
+                # from one other library function: the rules are about that function's loop and guards
+                callers = {c.id for c in ctx.reachable_bodies() if c.id != top.id and c.id.startswith(("blockwatch::", "<blockwatch::"))
+                           and any((tt.get("res") or "") == top.id for _, tt in c.calls())}
+                roots = set()
+                for cid in callers:
+                    cb = ctx.facts.body(cid)
+                    while cb is not None and cb.kind == "Closure" and cb.parent and ctx.facts.body(cb.parent) is not None:
+                        cb = ctx.facts.body(cb.parent)
+                    if cb is not None:
+                        roots.add(cb.id)
+                if len(roots) == 1 and top.id != fp.id:
+                    top = ctx.facts.body(next(iter(roots)))
+                    continue
+                break
             if top.id not in [x.id for x in tops]:
                 tops.append(top)
     # helpers of the binary's / library's driver that only forward to it are looked through as well
